@@ -111,6 +111,9 @@ ReqDefaultParams(be, o) == {
   <<"API.default_subject", Len(o.view.dn) = 1 /\ o.view.dn[1].ty = "2.5.4.3" /\ o.cnUtf8 = "726367656e2073656c66207369676e65642063657274">>,
   <<"API.default_nothing_else", o.view.sans = <<>> /\ o.view.ku = <<>> /\ o.view.eku = <<>> /\ o.view.custom = 0 /\ o.view.crldp = 0
                                 /\ o.view.nc.k = "none" /\ o.view.isCa.k = "NoCa" /\ o.view.serial.k = "auto" /\ ~o.view.aki>>,
+  (* the two back ends start from the same defaults (what is generated from default parameters is the same under either); the *)
+  (* crypto-less build cannot hash and documents an empty pre-specified identifier                                            *)
+  <<"C16.crypto_back_ends_share_default_key_identifier_method", be # "none" => o.view.kid = [k |-> "sha256", b |-> <<>>]>>,
   <<"API.default_key_identifier_method", o.view.kid = (IF be = "none" THEN [k |-> "pre", b |-> <<>>] ELSE [k |-> "sha256", b |-> <<>>])>> }
 
 (* date_time_ymd: midnight UTC of a calendar date; anything that is not a date of the proleptic Gregorian calendar in -9999..9999 panics (documented) *)
